@@ -53,10 +53,8 @@ def body(ck, tier, runner):
         queries = []
         for k in rng.shuffle(KINDS)[:4]:
             on = join_cond(rng, 3) if k != "cross" else ("lit", True)
-            while k in ("semi", "anti") and "isnull" in qgen.sexp(on):
-                # EXISTS whose predicate is TRUE for a NULL outer value: lost by the `=` join-back of the decorrelation
-                # (known finding subquery/exists/null-correlated-column, probed by C09)
-                on = join_cond(rng, 3)
+            # (EXISTS whose predicate is TRUE for a NULL outer value used to be regenerated here: the `=` join-back of the
+            # decorrelation lost those rows - F37, repaired; the join back is now a hash join on IS NOT DISTINCT FROM)
             q = ("join", k, on, ("scan", "t0"), ("scan", "t1"))
             if rng.chance(1, 3):
                 # join of a join (lateral-free chain), or aggregate on top so that huge cross products stay comparable
